@@ -99,7 +99,17 @@ Fixpoint read_loop (fuel : nat) (addr remain : N) (buf : list N) (pos : nat)
 (** [read_locked(ctx, as, addr, buffer, plength)] with [*plength = plength] *)
 Definition KDUMP_ERR_NODATA : Z := 3%Z.
 
-Definition read_locked (fuel : nat) (addr plength : N) (buffer : list N) : rout :=
+Definition KDUMP_ERR_INVALID : Z := 5%Z.
+
+(** [as_valid]: the caller's address space is one of KDUMP_KPHYSADDR,
+    KDUMP_MACHPHYSADDR, KDUMP_KVADDR ([check_addrspace], added by
+    fixes/72-read-invalid-addrspace.patch; before it an out-of-range value was
+    used as a shift count) *)
+Definition read_locked (as_valid : bool) (fuel : nat) (addr plength : N) (buffer : list N) : rout :=
+  (* ret = check_addrspace(ctx, as); if (ret != KDUMP_OK) { *plength = 0; return ret; } *)
+  if negb as_valid then
+    RDone {| rr_status := KDUMP_ERR_INVALID; rr_plength := 0; rr_buffer := buffer; rr_events := [] |}
+  else
   (* if ( *plength && !get_page_size(ctx)) { *plength = 0; return set_error(KDUMP_ERR_NODATA); } *)
   if negb (plength =? 0) && (page_size =? 0) then
     RDone {| rr_status := KDUMP_ERR_NODATA; rr_plength := 0; rr_buffer := buffer; rr_events := [] |}
@@ -120,13 +130,21 @@ Record sres := {
   sr_events : list ev
 }.
 
-Inductive sout := SDone (r : sres) | SOutOfFuel | SOob | SDivZero.
+Inductive sout := SDone (r : sres) | SOutOfFuel | SOob | SDivZero | SOverrun.
 
 Variable repaired : bool.
 
-(** [str] = (token, bytes so far) or NULL; [oracle] = answers of the next reallocs;
-    [next] = next fresh token *)
-Fixpoint string_loop (fuel : nat) (addr : N) (str : option (nat * list N))
+
+(** the variant of the realloc step seeded as C12-c1 ("grow the buffer only if
+    there is something to append; room for the NUL is added with the last
+    part"); [false] = the code of the tree *)
+Variable lazy_nul : bool.
+
+(** [str] = (token, bytes so far) or NULL; [cap] = size of the block [str]
+    points to (what the last realloc granted); [oracle] = answers of the next
+    reallocs; [next] = next fresh token.  A [memcpy] or the final
+    [str[length] = 0] outside the block is the outcome [SOverrun]. *)
+Fixpoint string_loop (fuel : nat) (addr : N) (str : option (nat * list N)) (cap : nat)
          (oracle : list bool) (next : nat) (evs : list ev) : sout :=
   match fuel with
   | O => SOutOfFuel
@@ -152,38 +170,65 @@ Fixpoint string_loop (fuel : nat) (addr : N) (str : option (nat * list N))
                 let endp := memchr0 chunk in
                 let piece := match endp with Some i => firstn i chunk | None => chunk end in
                 let evs1 := evs ++ [EvGet pa] in
-                (* newstr = realloc(str, newlength + 1); *)
-                let ok := match oracle with b :: _ => b | [] => true end in
-                if negb ok then
-                  (* put_page(&pio); if (str) free(str); return set_error(KDUMP_ERR_SYSTEM) *)
-                  let evs2 := evs1 ++ [EvPut pa] in
-                  let evs3 := match str with Some (id, _) => evs2 ++ [EvFree id] | None => evs2 end in
-                  SDone {| sr_status := KDUMP_ERR_SYSTEM; sr_string := None; sr_events := evs3 |}
+                let old := match str with Some (_, s) => s | None => [] end in
+                (* newlength = length + partlen; *)
+                let newlength := (length old + length piece)%nat in
+                let grow := negb lazy_nul || (length old <? newlength)%nat
+                            || (match str with None => true | Some _ => false end) in
+                if grow then
+                  (* newstr = realloc(str, newlength + 1); *)
+                  let ok := match oracle with b :: _ => b | [] => true end in
+                  if negb ok then
+                    (* put_page(&pio); if (str) free(str); return set_error(KDUMP_ERR_SYSTEM) *)
+                    let evs2 := evs1 ++ [EvPut pa] in
+                    let evs3 := match str with Some (id, _) => evs2 ++ [EvFree id] | None => evs2 end in
+                    SDone {| sr_status := KDUMP_ERR_SYSTEM; sr_string := None; sr_events := evs3 |}
+                  else
+                    let newcap := if lazy_nul && (match endp with None => true | Some _ => false end)
+                                  then newlength else (newlength + 1)%nat in
+                    let evs2 := match str with
+                                | Some (id, _) => evs1 ++ [EvFree id; EvAlloc next]
+                                | None => evs1 ++ [EvAlloc next]
+                                end in
+                    (* memcpy(newstr + length, data + off, partlen); put_page(&pio); *)
+                    if negb (newlength <=? newcap)%nat then SOverrun
+                    else
+                      let str' := (next, old ++ piece) in
+                      let evs3 := evs2 ++ [EvPut pa] in
+                      match endp with
+                      | Some _ =>
+                          (* str[length] = 0; *pstr = str; return KDUMP_OK; *)
+                          if (newlength <? newcap)%nat
+                          then SDone {| sr_status := KDUMP_OK; sr_string := Some str'; sr_events := evs3 |}
+                          else SOverrun
+                      | None =>
+                          string_loop fuel' (wadd addr partlen) (Some str') newcap
+                                      (tl oracle) (S next) evs3
+                      end
                 else
-                  let old := match str with Some (_, s) => s | None => [] end in
-                  let evs2 := match str with
-                              | Some (id, _) => evs1 ++ [EvFree id; EvAlloc next]
-                              | None => evs1 ++ [EvAlloc next]
-                              end in
-                  (* memcpy(newstr + length, data + off, partlen); put_page(&pio); *)
-                  let str' := (next, old ++ piece) in
-                  let evs3 := evs2 ++ [EvPut pa] in
+                  (* (variant only) nothing to append and a buffer exists: no realloc *)
+                  let evs3 := evs1 ++ [EvPut pa] in
                   match endp with
                   | Some _ =>
-                      (* str[length] = 0; *pstr = str; return KDUMP_OK; *)
-                      SDone {| sr_status := KDUMP_OK; sr_string := Some str'; sr_events := evs3 |}
+                      if (newlength <? cap)%nat
+                      then SDone {| sr_status := KDUMP_OK; sr_string := str; sr_events := evs3 |}
+                      else SOverrun
                   | None =>
-                      string_loop fuel' (wadd addr partlen) (Some str') (tl oracle) (S next) evs3
+                      string_loop fuel' (wadd addr partlen) str cap oracle next evs3
                   end
             end
       end
   end.
 
-Definition read_string_locked (fuel : nat) (addr : N) (oracle : list bool) : sout :=
+Definition read_string_locked (as_valid : bool) (fuel : nat) (addr : N) (oracle : list bool) : sout :=
+  (* ret = check_addrspace(ctx, as); if (ret != KDUMP_OK) return ret; *)
+  if negb as_valid then
+    SDone {| sr_status := KDUMP_ERR_INVALID; sr_string := None; sr_events := [] |}
+  else
   (* if (!get_page_size(ctx)) return set_error(KDUMP_ERR_NODATA, "Page size is not known"); *)
   if page_size =? 0 then
     SDone {| sr_status := KDUMP_ERR_NODATA; sr_string := None; sr_events := [] |}
-  else string_loop fuel addr None oracle 0%nat [].
+  else string_loop fuel addr None 0%nat oracle 0%nat [].
 
 End Read.
 
